@@ -254,7 +254,7 @@ func TestC06(t *testing.T) {
 			if i == 0 {
 				s.Op = "build"
 			}
-			s.Cfg = rapid.SampledFrom([]string{"default", "default", "default", "tiny", "tiny", "literals", "literals", "seed", "seed", "seed2", "seed3", "literals+tiny"}).Draw(t, "cfg")
+			s.Cfg = rapid.SampledFrom([]string{"default", "default", "tiny", "tiny", "literals", "literals", "seed", "seed2", "seed2", "seed3", "seed3", "literals+tiny"}).Draw(t, "cfg")
 			s.Tag = rapid.IntRange(0, 3).Draw(t, "tag") == 0
 			s.LdX = rapid.IntRange(-2, 3).Draw(t, "ldx")
 			if s.LdX < -1 {
@@ -263,6 +263,21 @@ func TestC06(t *testing.T) {
 			s.Pkg = rapid.IntRange(0, 2).Draw(t, "pkg")
 			s.Kind = rapid.SampledFrom([]string{"literal", "func", "comment"}).Draw(t, "kind")
 			c.Steps = append(c.Steps, s)
+		}
+		// two long seeds with a common 8-byte prefix are only interesting together:
+		// when one of them was drawn, a later build uses its sibling
+		for i := range c.Steps {
+			if c.Steps[i].Op != "build" || (c.Steps[i].Cfg != "seed2" && c.Steps[i].Cfg != "seed3") {
+				continue
+			}
+			sibling := map[string]string{"seed2": "seed3", "seed3": "seed2"}[c.Steps[i].Cfg]
+			for j := i + 1; j < len(c.Steps); j++ {
+				if c.Steps[j].Op == "build" {
+					c.Steps[j].Cfg = sibling
+					break
+				}
+			}
+			break
 		}
 		if k := c06Excluded(c); k != "" {
 			// keep the history but take the listed combination out of it
